@@ -29,7 +29,7 @@ variable {K : Type} [Field K] {ζ : K} {ρ : ℕ → K}
 def ctrlOp (c : ℕ) (κ : K) (A : ℕ → ℕ → K) (r j : ℕ) : K :=
   if Gate.bitAt r c = 1 ∧ Gate.bitAt j c = 1 then A r j else if r = j then κ else 0
 
-theorem evalMat_ofFn (R C : ℕ) (f : ℕ → ℕ → Poly) (i j : ℕ) :
+theorem evalMat_ofFn_rc (R C : ℕ) (f : ℕ → ℕ → Poly) (i j : ℕ) :
     evalMat ζ ρ (Mat.ofFn R C f) i j = if i < R ∧ j < C then eval ζ ρ (f i j) else 0 := by
   unfold evalMat evalRow Mat.ofFn
   by_cases hi : i < R
@@ -55,7 +55,7 @@ theorem evalMat_ctrlMat (hζ : ζ ^ 8 = -1) (hρ : ∀ j, ρ j ≠ 0) (L : Mat) 
            else if a = b then s2 ζ ^ k else 0)
         else 0 := by
   unfold ctrlMat
-  rw [evalMat_ofFn]
+  rw [evalMat_ofFn_rc]
   congr 1
   by_cases h1 : a % 2 = 1 ∧ b % 2 = 1
   · have : (a % 2 == 1 && b % 2 == 1) = true := by simp [h1.1, h1.2]
